@@ -52,6 +52,7 @@ func runC02(p *Prog, r *Report) {
 	c02R7(p, r)
 	c02R8(p, r)
 	c02R9(p, r)
+	c02R9b(p, r)
 }
 
 // lastField returns the final field name of an address and the struct it belongs to.
@@ -2098,4 +2099,99 @@ func c02EdgeValues(e ssa.Value, head *ssa.Phi, depth int) []c02EdgeValue {
 	}
 	walk(e, Poly{}, nil, 0)
 	return out
+}
+
+// ---- R9 (addition): a pass that thins out the found records keeps all of this block's ---------
+
+// c02R9b: the level and auto passes give way to the triggers found so far (edge before level
+// before auto).  A pass may leave out records that lie before anything this block can trigger on,
+// i.e. before the scan start common to all passes (firstPotentialTriggerFrame); thinning the list
+// with a later position - the pass's own first candidate - drops records of this very block, and
+// the pass then triggers right next to them (an auto record a few samples after an edge record).
+// Decided at the call sites of helpers that copy the records under a comparison with a parameter.
+func c02R9b(p *Prog, r *Report) {
+	trig := p.Func("", "DataStreamProcessor", "TriggerData")
+	if trig == nil {
+		return
+	}
+	n := 0
+	seen := map[*ssa.Function]bool{}
+	Instrs(trig, func(in ssa.Instruction) {
+		for _, pass := range p.calledFuncs(in) {
+			if seen[pass] || !isModuleFn(pass) {
+				continue
+			}
+			seen[pass] = true
+			Instrs(pass, func(x ssa.Instruction) {
+				call, ok := x.(*ssa.Call)
+				if !ok || call.Call.IsInvoke() {
+					return
+				}
+				h := call.Call.StaticCallee()
+				if !isModuleFn(h) || len(h.Blocks) == 0 || len(h.Params) != len(call.Call.Args) {
+					return
+				}
+				// h copies elements of a []*DataRecord parameter under a comparison with an integer parameter
+				var recPrm, cutPrm *ssa.Parameter
+				for _, q := range h.Params {
+					if strings.HasSuffix(q.Type().String(), "[]*github.com/usnistgov/dastard.DataRecord") {
+						recPrm = q
+					}
+				}
+				if recPrm == nil {
+					return
+				}
+				for _, l := range RangeLoops(h) {
+					if l.Over != ssa.Value(recPrm) {
+						continue
+					}
+					Instrs(h, func(y ssa.Instruction) {
+						ap, ok := y.(*ssa.Call)
+						if !ok || !l.Contains(ap.Block()) {
+							return
+						}
+						if b, isB := ap.Call.Value.(*ssa.Builtin); !isB || b.Name() != "append" {
+							return
+						}
+						for _, ct := range controllingIfs(ap.Block()) {
+							if !l.Contains(ct.If.Block()) {
+								continue
+							}
+							bo, ok := ct.If.Cond.(*ssa.BinOp)
+							if !ok {
+								continue
+							}
+							for _, side := range []ssa.Value{bo.X, bo.Y} {
+								if q, isPrm := stripConv(side).(*ssa.Parameter); isPrm && isIntLike(q.Type()) {
+									cutPrm = q
+								}
+							}
+						}
+					})
+				}
+				if cutPrm == nil {
+					return
+				}
+				n++
+				r.Fn(FuncName(h))
+				var arg ssa.Value
+				for i, q := range h.Params {
+					if q == cutPrm {
+						arg = stripConv(call.Call.Args[i])
+					}
+				}
+				key := FuncName(pass) + ": found records are left out only before the scan start common to all passes"
+				ac, isCall := arg.(*ssa.Call)
+				switch {
+				case isCall && ac.Call.StaticCallee() != nil && ac.Call.StaticCallee().Name() == "firstPotentialTriggerFrame":
+					r.OK("C02.R9", key, p.InstrPos(call), FuncName(h)+" is given firstPotentialTriggerFrame()")
+				case isCall && ac.Call.StaticCallee() != nil && strings.HasPrefix(ac.Call.StaticCallee().Name(), "firstPotential"):
+					r.Bad("C02.R9", key, p.InstrPos(call), FuncName(h)+" drops the found records before "+ac.Call.StaticCallee().Name()+"(), this pass's own first candidate, which lies later than the scan start of the passes before it: a record they found in between (in this very block) no longer holds this pass off, so it creates a record right after it - overlapping it, on a sample that meets no enabled criterion - and the result depends on how the stream is cut into blocks")
+				default:
+					r.Unk("C02.R9", key, p.InstrPos(call), FuncName(h)+" leaves out found records before a position that is not the result of a scan-start function: not decided")
+				}
+			})
+		}
+	})
+	_ = n
 }
